@@ -106,6 +106,31 @@ def run(ctx, replay=None):
             ctx.violation({"property": "C17", "what": problems[0], "all": problems[:6], "cases": batch, "results": outs,
                            "race_report": err[-3000:] if "DATA RACE" in err or rc not in (0, 66) else "",
                            "replay_cmd": "python3 check.py C17 --replay <this file>"})
+    # Start immediately followed by Stop, the pause sweeping the whole start-up of the server
+    if not replay:
+        rounds = 1500 if ctx.tier == "quick" else 40000
+        inp2 = os.path.join(ctx.workdir, "ss-in.json")
+        outp2 = os.path.join(ctx.workdir, "ss-out.json")
+        json.dump({"seed": ctx.seed, "rounds": rounds}, open(inp2, "w"))
+        env = dict(common.GOENV, GORACE="halt_on_error=0 exitcode=66")
+        try:
+            p = subprocess.run([info["harness"], "startstop", inp2, outp2], capture_output=True, text=True, env=env, timeout=900)
+            rc, err = p.returncode, p.stderr
+        except subprocess.TimeoutExpired:
+            rc, err = -9, "timeout"
+        ss = json.load(open(outp2)) if os.path.exists(outp2) else None
+        coverage["startstop_rounds"] = (ss or {}).get("rounds")
+        if not found:
+            if "DATA RACE" in err:
+                ctx.violation({"property": "C17", "what": "data race reported by the race detector (Start/Stop rounds)", "mode": "startstop",
+                               "case": {"seed": ctx.seed, "rounds": rounds}, "race_report": err[-3000:]})
+            elif ss is None or rc not in (0, 66):
+                ctx.violation({"property": "C17", "what": "Start/Stop rounds: harness process died (rc %s): %s" % (rc, err[-600:]), "mode": "startstop",
+                               "case": {"seed": ctx.seed, "rounds": rounds}})
+            elif ss.get("stuck_at", -1) >= 0:
+                ctx.violation({"property": "C17", "what": "Start followed %s microseconds later by Stop: %s (round %s)" % (
+                    ss.get("pause_us"), ss.get("what") or ("fatal: " + ss.get("fatal", "")), ss.get("stuck_at")), "mode": "startstop",
+                    "case": {"seed": ctx.seed, "rounds": rounds}, "result": ss})
     coverage["evaluations"] = len(cases)
     coverage["distinct_nontrivial"] = len(nontrivial)
     coverage["samples"] = [{"case": c, "result": o} for c, o in list(zip(cases, results))[:2]]
